@@ -108,6 +108,10 @@ ChainVecs ==
   Cross2(<< "NewIntegerFromInt", "EncodeIntN" >>, << 1, 2, 4, 8 >>, LAMBDA fn, sz :
      ChainInt(fn, sz, << 5, 6, 7, 4, 0, 1, 255, 254, 5, 6, 127, 128, 129, 2, 3 >>, "neighbours"))
   \o Cross2(<< "NewIntegerFromInt", "EncodeIntN" >>, << 2, 3 >>, LAMBDA fn, sz : ChainInt(fn, sz, << 256, 257, 255, 65535, 65534, 0, 1 >>, "neighbours"))
+  \* decoders of every width side by side (also run from eight goroutines at once by the Chain op)
+  \o SeqMap(LAMBDA fn : [op |-> "Chain", fn |-> fn, kind |-> "intdec", cls |-> "widths",
+                          items |-> [w \in 1..8 |-> [fn |-> fn, in |-> [i \in 1..w |-> (37 * w + 11 * i) % 128]]] \o [w \in 1..8 |-> [fn |-> fn, in |-> [i \in 1..w |-> 255 - ((w + i) % 100)]]]],
+            << "Int", "IntSafe", "UintSafe", "DecodeIntN" >>)
   \o << [op |-> "Chain", fn |-> "I2PString", kind |-> "string", cls |-> "strings",
           items |-> << [fn |-> "ToI2PString", in |-> << 97 >>], [fn |-> "ToI2PString", in |-> << 97, 98 >>], [fn |-> "NewI2PString", in |-> << >>],
                        [fn |-> "NewI2PString", in |-> Fill(255, 3)], [fn |-> "ToI2PString", in |-> << 98 >>], [fn |-> "NewI2PString", in |-> << 97 >>] >>],
